@@ -17,7 +17,7 @@ from translate import release as tr_release
 GEN = [tr_release.generate]
 
 
-def run_find(n, arrival, kind, timeout=3.0, subop=None):
+def run_find(n, arrival, kind, timeout=3.0, subop=None, bad_last=False):
     """kind: 'find' | 'get'.  arrival in 0..n: the release request is sent just before the handler's
     yield number `arrival` (arrival == n: after the last yield, before the handler returns);
     arrival == n + 1: right after the operation completed (between messages);
@@ -88,6 +88,8 @@ def run_find(n, arrival, kind, timeout=3.0, subop=None):
 
             d.file_meta = FileMetaDataset()
             d.file_meta.TransferSyntaxUID = ImplicitVRLittleEndian
+            if bad_last and i == n - 1:
+                d.add_new(0x00280010, "US", "abc")  # cannot be encoded: this sub-operation fails before anything is sent
             yield 0xFF00, d
         wait_point(n)
 
@@ -175,11 +177,14 @@ def run_find(n, arrival, kind, timeout=3.0, subop=None):
 def _job(args):
     n, arrival, kind = args[:3]
     subop = args[3] if len(args) > 3 else None
+    bad_last = subop == "bad-last"
+    if bad_last:
+        subop = None
     box = {}
 
     def body():
         try:
-            box["r"] = run_find(n, arrival, kind, timeout=1.0 if subop else 3.0, subop=subop)
+            box["r"] = run_find(n, arrival, kind, timeout=1.0 if subop else 3.0, subop=subop, bad_last=bad_last)
         except Exception:
             import traceback
 
@@ -216,6 +221,9 @@ def run(ctx):
     if ctx.quick:
         sub = [j for j in sub if j[0] <= 2]
     jobs += sub
+    # the release request arrives after a C-GET whose last sub-operation could not even be encoded (an exception path
+    # of the acceptor's own send_c_store): the reactor must be running again afterwards
+    jobs += [(n, n + 1, "get", "bad-last") for n in (1, 2)]
     pool = mp.get_context("fork").Pool(processes=12, maxtasksperchild=10)
     try:
         results = pool.map(_job, jobs, chunksize=1)
@@ -223,10 +231,21 @@ def run(ctx):
         pool.terminate()
         pool.join()
     # a sub-operation arrival that the peer then answers is, for the handler loop, an arrival before the next yield
-    model = ctx.lean([["release.serve", j[0], (j[3][0] + 1 if len(j) > 3 else j[1]), False] for j in jobs])
+    model = ctx.lean([["release.serve", j[0], (j[3][0] + 1 if len(j) > 3 and j[3] != "bad-last" else j[1]), False] for j in jobs])
     for job, r, m in zip(jobs, results, model):
         n, arrival, kind = job[:3]
         subop = job[3] if len(job) > 3 else None
+        if subop == "bad-last":
+            subop = None
+            case = ["release", kind, n, arrival, "bad-last"]
+            ctx.case(case, nontrivial=True, kind="get:between:after-unencodable-sub-operation")
+            if r.get("hang") or "harness_error" in r or not r.get("established"):
+                ctx.diff(case, r, "n/a", "scenario harness failed")
+            elif not r["rp"] or not r["acc_released"] or r["acc_aborted"]:
+                ctx.fail("release-not-answered:get:after-failed-sub-operation",
+                         f"get n={n}, last sub-operation unencodable, release request after the operation: peer saw {r['pdus']}, "
+                         f"acceptor released={r['acc_released']} aborted={r['acc_aborted']}", case)
+            continue
         case = ["release", kind, n, arrival] + ([list(subop)] if subop else [])
         if subop:
             ctx.case(case, nontrivial=True, kind=f"get:sub-operation:{'answered' if subop[1] else 'never-answered'}")
@@ -261,8 +280,9 @@ def run(ctx):
 def replay(ctx, case):
     c = case["case"]
     kind, n, arrival = c[1], c[2], c[3]
-    subop = tuple(c[4]) if len(c) > 4 else None
-    r = run_find(n, arrival, kind, timeout=1.0 if subop else 3.0, subop=subop)
+    bad_last = len(c) > 4 and c[4] == "bad-last"
+    subop = tuple(c[4]) if len(c) > 4 and not bad_last else None
+    r = run_find(n, arrival, kind, timeout=1.0 if subop else 3.0, subop=subop, bad_last=bad_last)
     if subop and not subop[1]:
         print(r)
         return 0 if (r.get("abort_seen") or r.get("acc_aborted") or (r.get("rp") and r.get("acc_released"))) else 1
